@@ -264,8 +264,8 @@ package closest
 //@   before return#5: assert [c18.nil.means.clean] len(recvd(cErr)) == 0 && len(recvd(cResults)) == nQ
 //@   ghost gWriteFailed bool = false
 //@   after call:writeClosest#1: do gWriteFailed = ret() != nil
-//@   ensures [c18.error.returned] implies(gErrSeen, result != nil)
-//@   ensures [c19.writer.error.returned] implies(gWriteFailed, result != nil)
+//@   ensures [local.c18.error.returned] implies(gErrSeen, result != nil)
+//@   ensures [local.c19.writer.error.returned] implies(gWriteFailed, result != nil)
 
 //@ # closest -n / -d: the same orchestration; the table flag only selects the writer
 //@ spec resultOfN(k int) int uninterpreted
@@ -294,5 +294,5 @@ package closest
 //@   after call:writeClosestNTable#1: do gWriteFailed = ret() != nil
 //@   after call:writeClosestN#1: do gWriteFailed = ret() != nil
 //@   before return#5: assert [c18.nil.means.clean] len(recvd(cErr)) == 0 && len(recvd(cResults)) == nQ
-//@   ensures [c18.error.returned] implies(gErrSeen, result != nil)
-//@   ensures [c19.writer.error.returned] implies(gWriteFailed, result != nil)
+//@   ensures [local.c18.error.returned] implies(gErrSeen, result != nil)
+//@   ensures [local.c19.writer.error.returned] implies(gWriteFailed, result != nil)
